@@ -1,9 +1,11 @@
 """C08 bounds and samplers (DESIGN §4 C08)."""
 from vt.props import common_spaces as cs
+from vt.pipeline import Query
 CLAIM = ('Real enforceBounds/satisfiesBounds and default samplers (uniform, near, Gaussian) of SO(2), R^n (n<=2), Time and Discrete, with '
          'symbolic bounds (zero-width, negative, up to 1e6), every in-bounds centre, every distance/stddev in range and every RNG draw: '
-         'enforcing leaves in-bounds states bit-identical, maps every finite state into the bounds and is idempotent; every sample satisfies the bounds.')
-OUT = 'SO3 normalisation, NaN/inf inputs, centre states outside bounds, statistical uniformity, compound/subspace samplers and valid-state samplers (see C08 valid-sampler queries when present)'
+         'enforcing leaves in-bounds states bit-identical, maps every finite state into the bounds and is idempotent; every sample satisfies the bounds; each of the six valid-state samplers (sample and sampleNear) returns success only with a valid in-bounds state, '
+         'for every validity/clearance assignment to the states handed out by a stub base sampler / interpolation / motion validator.')
+OUT = 'SO3 normalisation, NaN/inf inputs, centre states outside bounds, statistical uniformity, compound/subspace samplers (see compound queries when present)'
 ASSUMPTIONS = ['fmod is a contract stub (vt/stubs/fmod.c)', 'uniform canonical draw is any double in [0,1), normal draw any finite double (vt/include/vt_rng_env.h)']
 def queries(tier):
     qs = [cs.so2('enforce', tier, bound='every finite double'), cs.so2('sample_uniform', tier, bound='every RNG draw'),
@@ -18,4 +20,13 @@ def queries(tier):
           cs.misc('discrete_enforce', tier, bound='every int')]
     for w, nm in ((0, 'uniform'), (1, 'near'), (2, 'gaussian')):
         qs.append(cs.misc('discrete_sampler', tier, name='discrete_sampler[%s]' % nm, defines={'WHICH': w}, bound='symbolic bounds, every draw', backends=('cadical', 'kissat')))
+    names = ['uniform', 'gaussian', 'obstacle_based', 'bridge_test', 'min_clearance', 'max_clearance']
+    tus = ['src/ompl/base/src/SpaceInformation.cpp'] + ['src/ompl/base/samplers/src/%s.cpp' % n for n in ('UniformValidStateSampler', 'GaussianValidStateSampler', 'ObstacleBasedValidStateSampler',
+                                                               'BridgeTestValidStateSampler', 'MinimumClearanceValidStateSampler', 'MaximizeClearanceValidStateSampler')]
+    for kind, nm in enumerate(names):
+        for near in (0, 1):
+            for att in ([2] if tier == 'quick' else [1, 2, 3, 4]):
+                qs.append(Query('valid_%s[%s,attempts=%d]' % (nm, 'near' if near else 'sample', att), 'C08_valid.cpp', 'harness_valid_sampler', tus=tus,
+                                defines={'KIND': kind, 'NEAR': near, 'ATT': att}, unwind=att + 3, timeout=300 if tier == 'quick' else 900,
+                                bound='%d attempts (and improve attempts), every validity/clearance assignment to the states the environment hands out' % att))
     return qs
